@@ -289,7 +289,9 @@ func (c *Ctx) finish(verifDir string, wall float64, seed int64, evidencePath str
 			"twins_expected_silent": len(c.CanaryOK)},
 	}
 	for k, v := range c.Extra {
-		cov[k] = v
+		if !strings.HasPrefix(k, "_") {
+			cov[k] = v
+		}
 	}
 	if c.Level == "proof" {
 		cov["checker_cmd"] = fmt.Sprintf("bin/mdscheck -prop %s -tier %s", c.Prop, c.Tier)
